@@ -12,7 +12,7 @@ RULE = ("seeded scenes: random rooted tree skeletons (2-6 nodes, shuffled listin
         "non-trivial = frame with >= 2 animals or an animal with a missing node; distinct by the configuration tuple + skeleton")
 ASSUMPTIONS = ["well-separated premise enforced by the generator: animal centres >= 2.6 body sizes apart, nodes of an animal >= 2.5 confidence-map cells apart (in network-input pixels)",
                "the oracle network's PAF width is chosen from the two strides (sigma = max(1.5*paf_stride, 3) input px) - the network is free to be ideal, the claim is about the decoder",
-               "tolerance per axis: (0.5*cms_stride + 0.75)/(input_scale*eff_scale) original px; RGB pipeline"]
+               "tolerance per axis: (0.5*cms_stride + a)/(input_scale*eff_scale) original px with a = 0.35 + the explicit integer-size rounding of the resizing steps (vf/e2e.py:tol); RGB pipeline"]
 SHARDS = {"quick": 8, "thorough": 16}
 N = {"quick": 280, "thorough": 4000}
 BUDGET = {"quick": 110, "thorough": 1700}
@@ -139,7 +139,7 @@ def check(ctx, case):
     small = dict(case)
     max_hw = tuple(case["max_hw"])
     eff = e2e.eff_scale_for(case["H"], case["W"], max_hw)
-    tol = on.tolerance(case["cms_stride"], case["scale"], eff)
+    tol = e2e.tol(case["cms_stride"], case["H"], case["W"], max_hw, case["scale"])
     paf_sigma = max(1.5 * case["paf_stride"], 3.0)
     edges = [tuple(e) for e in case["edges"]]
     nt = False
